@@ -14,6 +14,8 @@ import (
 	"time"
 )
 
+var noControls bool
+
 type propertyDef struct {
 	id      string
 	explain string
@@ -35,6 +37,7 @@ func main() {
 	replay := flag.String("replay", "", "replay file written by a failing run: re-checks exactly those obligations")
 	tags := flag.String("tags", "", "build tags")
 	list := flag.Bool("list", false, "list properties")
+	flag.BoolVar(&noControls, "nocontrols", false, "skip the positive/negative controls of the thorough tier")
 	flag.Parse()
 	if *list {
 		var ids []string
@@ -88,6 +91,9 @@ func runProperty(def *propertyDef, tier, repo, root, only, replay, tags string) 
 	def.run(r)
 	if tier == "thorough" {
 		runThoroughExtras(r, def, repo, tags)
+		if !noControls {
+			runControls(r, def, repo)
+		}
 	}
 	return r.Finish(def.explain)
 }
